@@ -221,6 +221,7 @@ def execute(sim, plan, _scratch=None):
     dbb = storesim.DagBuilder(url_b, fmt, "shared", scratch=_scratch, tag="b")
     db3 = storesim.DagBuilder(url_3, plan["third_fmt"], "shared", scratch=_scratch, tag="t")
     dbk = storesim.DagBuilder(url_k, fmt, "adopt", scratch=_scratch, tag="k")
+    dbk.raise_errors = True  # commits into the stacked branch are classified below (refused ghost commits)
     base_url = dbb.branch_url("p")
     stk_url = url_k + "stk"
     db3.sources = [base_url]
